@@ -12,9 +12,11 @@ LEVEL_TEXT = ("Theorems in coq/Props/C12.v over the kernels regenerated from cig
               "complement involution (M I D P = X H), length exchange (all codes), link complement involution, "
               "is_complement of the complement, symmetry and characterisation of is_eql; S/N refutation witness. "
               "Tie B: link/equivalence.py and link/complement.py hand-modelled in Model/Link.v and compared with the "
-              "implementation on generated links inside Coq.  Graph-level clauses (adding the complement adds nothing, "
-              "lookup from either form, path orientation in every arrival order) are decided on the implementation "
-              "by the oracle and by the graph model where modelled.")
+              "implementation on generated links inside Coq.  In the Gfa (Model/Graph.v, Proofs/LinkGraphP.v): adding the "
+              "complement of a stored link returns the state unchanged, another link on a stored oriented pair is refused, "
+              "the lookup by oriented pair is sound and complete and answers in direct or complement form.  Path "
+              "orientation in every arrival order is decided on the implementation by the oracle and by the graph "
+              "correspondence.")
 RULE = ("random CIGARs over all nine codes (1..12 ops), links over a 3-name pool with all orientation pairs, "
         "self-links and hairpins, pairs (l, l), (l, complement l), (l, one-field mutant of l), (l, other); documents "
         "with a forward and a reversed path over the link in up to 12 arrival orders. Non-trivial: the CIGAR is not "
